@@ -16,12 +16,9 @@ LONG_GRAMMAR_TIER = ["item", "class", "name", "xmin", "xmax", "intervals: size",
 def rule_long_order(rep, rule="C-order-long"):
     idx = common.ctx()
     fn = idx.get(R.LONG_W)
-    text = []
-    for n in tf.stmts_in_order(fn):
-        if isinstance(n, ast.AugAssign) and isinstance(n.op, ast.Add):
-            for c in ast.walk(n.value):
-                if isinstance(c, ast.Constant) and isinstance(c.value, str) and c.value.endswith("\n"):
-                    text.append(c.value)  # line templates only (dictionary keys are not emitted text)
+    consts = [c for c in ast.walk(fn.node) if isinstance(c, ast.Constant) and isinstance(c.value, str) and c.value.endswith("\n")]
+    consts.sort(key=lambda c: (c.lineno, c.col_offset))
+    text = [c.value for c in consts]  # line templates only, in source order (dictionary keys are not emitted text)
     joined = "".join(text)
     import re
     keys = re.findall(r"File type|Object class|tiers\?|intervals: size|points: size|\b(?:intervals|points|item|class|name|xmin|xmax|size|text|number|mark)\b", joined)
